@@ -57,7 +57,7 @@ def s_exp3():
 
 def s_log3():
     return st.fixed_dictionaries({"kind": st.just("log3"), "w": rotvec(), "v": st.one_of(gens.trans(3, -6, 6), st.just([0.0, 0.0, 0.0])),
-                                  "se": st.booleans(), "twist": st.booleans(), "via": st.sampled_from(["rod", "quat"]),
+                                  "se": st.booleans(), "twist": st.booleans(), "via": st.sampled_from(["rod", "quat", "conj"]),
                                   "noise": noise(9)})
 
 
